@@ -8,7 +8,8 @@ ID = 'C06'
 RULE = ('cases = generated G-SEL spec with 1-3 incompatibility pairs (on start, option, derived, shared nodes) x all '
         'orders of taking active choices (decision-set DAG); oracle = no feasible final contains an incompatible pair, '
         'feasible finals = R-SEL set (nothing admissible lost, nothing inadmissible kept), initial graph infeasible only if '
-        'R-SEL is empty; non-trivial = at least one assignment is rejected by an incompatibility and at least one is '
+        'R-SEL is empty; choices are also taken on infeasible intermediate graphs (<= 600 states): no end state reached '
+        'through an infeasible state may be reported feasible; non-trivial = at least one assignment is rejected by an incompatibility and at least one is '
         'admissible; distinct by sha1(spec)')
 FUZZ_MODULES = ['adsg_core.graph.traversal', 'adsg_core.graph.choices', 'adsg_core.graph.incompatibility', 'adsg_core.graph.influence_matrix']   # thorough tier: atheris campaign over these modules (vf/fuzz.py)
 FUZZ_RUNS = 4000
@@ -28,7 +29,8 @@ def _spec(draw, tier):
 
 
 def strategy(tier):
-    return st.fixed_dictionaries({'spec': st.one_of(_spec(tier), specs.layered_spec())})
+    return st.fixed_dictionaries({'spec': st.one_of(_spec(tier), _spec(tier), specs.layered_spec(),
+                                                    specs.necessary_conflict_spec())})
 
 
 def check_case(case, tier='quick'):
@@ -47,6 +49,64 @@ def check_case(case, tier='quick'):
             res.add(viol('feasible_with_incompatible_pair', f'pairs={inside} nodes={sorted(k)} '
                                                             f'decisions={leaf["decisions"]}',
                          data={'nodes': sorted(k), 'pairs': inside}))
+    # Once infeasible, always infeasible: continue taking choices on infeasible intermediate graphs (a caller who looks at
+    # feasibility only at the end) - whatever is reported feasible at the end must still be an admissible architecture
+    if w.infeasible_states > 0 and not res.violations:
+        from .. import dsgwalk
+        w2 = dsgwalk.walk(spec, max_states=600, expand_infeasible=True)
+        if w2.build_exc is None and not w2.truncated:
+            ref = getattr(res, 'ref', {})
+            res.classes.append('expanded_infeasible_intermediates')
+            n_via = 0
+            for leaf in w2.leaves:
+                dec = frozenset(tuple(d) for d in leaf['decisions'])
+                via = [d for d in w2.infeasible_decisions if d <= dec and d != dec]
+                if not via:
+                    continue
+                n_via += 1
+                if leaf['feasible']:
+                    k = leaf['ident']
+                    inside = [p for p in pairs if p[0] in k[0] and p[1] in k[0]]
+                    res.add(viol('feasible_after_infeasible_intermediate',
+                                 f'decisions={leaf["decisions"]} passed the infeasible state {sorted(via[0])} and ends '
+                                 f'reported feasible (final={leaf["final"]}) nodes={sorted(k[0])} admissible={k in ref} '
+                                 f'incompatible_pairs_inside={inside}',
+                                 data={'nodes': sorted(k[0]), 'sel': [list(e) for e, _ in k[1]]}))
+                    break
+            # the same decisions reached in another order with another verdict (the first visit is the leaf above)
+            for dec_l, a, b_ in w2.order_conflicts:
+                dec = frozenset(tuple(d) for d in dec_l)
+                via = [d for d in w2.infeasible_decisions if d <= dec]
+                if via and (a[2] != b_[2]) and not res.violations:
+                    res.add(viol('feasible_after_infeasible_intermediate',
+                                 f'decisions={dec_l}: reported {"feasible" if a[2] else "infeasible"} in one order and '
+                                 f'{"feasible" if b_[2] else "infeasible"} in another (infeasible state on the way: '
+                                 f'{sorted(via[0])}); nodes {sorted(a[0])} vs {sorted(b_[0])}',
+                                 data={'nodes': sorted(b_[0] if b_[2] else a[0])}))
+            # ... and the same order taken on a freshly built graph (no sibling graphs derived before, cold caches)
+            n_replayed = 0
+            for leaf in w2.leaves:
+                if n_replayed >= 8 or res.violations:
+                    break
+                dec = frozenset(tuple(d) for d in leaf['decisions'])
+                for d_inf, p_inf in zip(w2.infeasible_decisions, w2.infeasible_paths):
+                    if not (d_inf <= dec and d_inf != dec) or n_replayed >= 8 or res.violations:
+                        continue
+                    # the decisions that make the graph infeasible first, then the remaining ones in the leaf's order
+                    order = [tuple(p_) for p_ in p_inf]+[tuple(p_) for p_ in leaf['path'] if tuple(p_) not in d_inf]
+                    n_replayed += 1
+                    try:
+                        out = dsgwalk.replay_fresh(spec, order)
+                    except Exception:  # noqa  (queries on infeasible graphs may fail: not judged)
+                        out = None
+                    if out is not None and out[0]:
+                        res.add(viol('feasible_after_infeasible_intermediate',
+                                     f'decisions taken in the order {order} on a fresh graph pass the infeasible state '
+                                     f'{sorted(d_inf)} and end reported feasible (final={out[1]}) nodes={sorted(out[2][0])} '
+                                     f'admissible={out[2] in ref}', data={'nodes': sorted(out[2][0])}))
+            res.evaluations += w2.states+n_replayed
+            if n_via:
+                res.classes.append('ends_reached_through_infeasible_state')
     model = refsel.Model(spec)
     try:
         _, infeasible = model.sel_architectures(arch_max=5000, with_infeasible=True)
